@@ -303,6 +303,10 @@ func (s *Server) cleanupIdleConnections() {
 	}
 }
 
+// minIdleCheckInterval bounds how often idle connections are looked for, so that a
+// very small IdleTimeout neither panics the ticker nor spins.
+const minIdleCheckInterval = time.Millisecond
+
 // idleConnectionCleanupLoop periodically checks for and closes idle connections
 func (s *Server) idleConnectionCleanupLoop() {
 	// Default check interval is 1 minute or IdleTimeout/2, whichever is shorter
@@ -313,6 +317,9 @@ func (s *Server) idleConnectionCleanupLoop() {
 		if tuning.IdleTimeout > 0 {
 			// Use half the idle timeout as a reasonable check interval
 			halfTimeout := tuning.IdleTimeout / 2
+			if halfTimeout < minIdleCheckInterval {
+				halfTimeout = minIdleCheckInterval // time.NewTicker panics on a non-positive interval
+			}
 			if halfTimeout < checkInterval {
 				checkInterval = halfTimeout
 			}
@@ -333,6 +340,9 @@ func (s *Server) idleConnectionCleanupLoop() {
 				tuning := s.handler.tuning.Load()
 				if tuning.IdleTimeout > 0 {
 					newInterval := tuning.IdleTimeout / 2
+					if newInterval < minIdleCheckInterval {
+						newInterval = minIdleCheckInterval
+					}
 					if newInterval < 1*time.Minute {
 						// Update ticker if interval changed
 						if newInterval != checkInterval {
